@@ -33,9 +33,10 @@ TRUSTED_BASE = [
     "hand-written model GraphiqModel/Model/{Gauss,DMSem}.lean tied to density_matrix/functions.py, metrics.py, state_rep_conversion.py by this correspondence run",
     "numpy.einsum semantics as specified by the model's mini-einsum (checked on every observed call against explicit loops)",
     "for commuting pairs rho = U diag(p) U†, sigma = U diag(q) U† the Uhlmann fidelity is (sum sqrt(p_i q_i))^2 and the trace distance "
-    "is 1/2 sum |p_i - q_i| (textbook; the closed forms themselves are proved to satisfy range, F=1 iff p=q, metric and Fuchs-van de Graaf)",
+    "is 1/2 sum |p_i - q_i|: PROVED (C17.commuting_closed_forms_are_uhlmann_and_trace_distance, Mathlib CFC.sqrt), as are range, F=1 iff p=q, metric and Fuchs-van de Graaf of the closed forms",
     "PARTIAL: Uhlmann fidelity / trace distance of non-commuting mixed pairs are evaluated by the direct oracle only (numpy SVD reference), not proved",
-    "sfm.fidelity (stabilizer inner product) is C05's subject; here its specification |<a|b>|^2 is checked on every observed call",
+    "sfm.fidelity (stabilizer inner product) is C05's subject; its specification stabOverlap = tr(rho_a rho_b) used here is PROVED equal to the value C05's model of inner_product reports (C17.stab_overlap_is_stabilizer_fidelity) and is still checked on every observed call",
+    "that the exact matrix of every valid tableau passes is_density_matrix / is_pure and that the overlap lies in [0,1] are theorems now (C17.stabilizer_density_is_pure_density_matrix, stab_overlap_in_unit_interval), no longer hypotheses; the driver still evaluates them on every input",
     "harness, line protocol, numpy reference routines",
 ]
 ASSUMPTIONS = [
